@@ -526,6 +526,26 @@ func init() {
 		"(*net/http.Request).Context":        func(c *stubCtx) { c.ret(Iface{T: c.m.P.errType, V: Ptr{}}) },
 		"(*net/url.URL).String":              func(c *stubCtx) { c.ret(mkStr("ws://verif.invalid/")) },
 		"internal/abi.NoEscape": func(c *stubCtx) { c.ret(c.args[0]) },
+		// the network dial of the client is cut: it fails for the first n calls the harness planned, then hands out the
+		// harness's socket (verifDialPlan)
+		"github.com/karagenc/socket.io-go/engine.io.Dial": func(c *stubCtx) {
+			c.m.dialCalls++
+			if c.m.dialCalls <= c.m.dialFails || c.m.dialSock == nil {
+				c.ret(Tuple{Iface{}, c.m.mkError(mkStr("verif: dial refused"))})
+				return
+			}
+			c.ret(Tuple{c.m.dialSock, Iface{}})
+		},
+		"verifDialPlan": func(c *stubCtx) {
+			n := c.args[0].(*smt.Term)
+			if !n.IsConst() {
+				panic(unsupported("verifDialPlan with symbolic count"))
+			}
+			c.m.dialFails = int(n.SInt())
+			c.m.dialSock = c.args[1]
+			c.ret(nil)
+		},
+		"verifDialCalls": func(c *stubCtx) { c.ret(smt.BV(64, uint64(c.m.dialCalls))) },
 		"verifWSReadLimit": func(c *stubCtx) {
 			w := wsConnOf(c.args[0])
 			if w == nil {
